@@ -10,9 +10,16 @@ def _die_with_parent():
         ctypes.CDLL('libc.so.6', use_errno=True).prctl(1, signal.SIGKILL)      # PR_SET_PDEATHSIG
     except Exception: pass
 
+def _src_digest():
+    import hashlib
+    h = hashlib.sha256()
+    for f in ('src/main.rs', 'Cargo.toml'):
+        h.update(open(os.path.join(HERE, '..', 'native', 'oracle', f), 'rb').read())
+    return h.hexdigest()[:8]
+
 class Oracle:
     def __init__(self, work=None):
-        self.work = work or os.path.join(WORK_ROOT, 'oracle_' + tree_digest(REPO))
+        self.work = work or os.path.join(WORK_ROOT, 'oracle_' + _src_digest() + '_' + tree_digest(REPO))
         self.proc = None
         self.n = 0
         self.build_s = 0.0
